@@ -18,6 +18,8 @@ TraceNext ==
          bad == Failed(<<
             \* only the signer's key authorises; no change to a signed field after signing
             << "C03.AcceptedUnauthorised", o.accepted => Authorised(k) >>,
+            \* ... whichever way the transaction reaches the ante handler: CheckTx (the mempool's question) accepts none either
+            << "C03.CheckTxAcceptedUnauthorised", o.checkOk => Authorised(k) >>,
             \* an accepted transaction pays at least the required fee ...
             << "C03.AcceptedUnderpaid", o.accepted => (o.fee >= o.required /\ FeeCovers(k)) >>,
             \* ... from the signer's own balance into the fee collector, exactly once
